@@ -8,6 +8,7 @@
 -/
 import Gotree.Lemmas.C03
 import Gotree.Lemmas.C03Ops
+import Gotree.Lemmas.C03Text
 import Gotree.Model.C01
 
 namespace Gotree.C03
@@ -44,9 +45,11 @@ theorem nodes_nodup (t : T) : ((nodes t).map (·.path)).Nodup ∧ ((edges t).map
 theorem nodes_valid (t : T) : ∀ r ∈ nodes t, ∃ s, subtreeAt t r.path = some s ∧ s.d = r.d :=
   nodesRecur_valid t t [] rfl
 
-/-- ★ each listed branch is a (parent, child) link of the tree: it sits in the kids of the node at
-    the parent path, carries that link's data, and its lower end is the child's subtree
-    (branches point away from the root) -/
+/-- ★ each listed branch is a (parent, child) link of the tree VALUE: it sits in the kids of the node at
+    the parent path, carries that link's data, and its lower end is the child's subtree.  This is
+    validity of the listed paths; it says nothing about `Left()/Right()` of the heap: the
+    transliteration assumes that a branch with `left == n` leads to a kid (Model/C03.lean, header).
+    Orientation of the real heap is judged per step by `graphProblems` on the raw pointer graph. -/
 theorem edges_oriented (t : T) : ∀ r ∈ edges t, Oriented t r := by
   cases t with
   | node d pp k => exact edgesLoop_oriented (.node d pp k) k [] d pp [] rfl
@@ -165,6 +168,42 @@ theorem rootTipNewick_pinned_fails :
     textProblems witnessRootTip (String.ofList (Gotree.Newick.writePinned Gotree.Newick.goCodec witnessRootTip)) ≠ [] ∧
     textProblems witnessRootTip (Gotree.Newick.writeStr Gotree.Newick.goCodec witnessRootTip) = [] := by
   decide +kernel
+
+/-! ### the pointer-graph oracle (`graphProblems`, `graphIsTree`) on concrete graphs
+
+  No general theorem links `graphProblems` to `T` (it is an oracle evaluated on the real heap after
+  every step); these examples only show that it accepts the graph of a tree, reads it as that tree,
+  and names the defect of graphs that are not trees oriented away from node 0. -/
+
+/-- `((a,b),c);` : node 0 the root, 1 the inner node, 2 3 4 the tips; branches 0:0–1, 1:1–2, 2:1–3, 3:0–4 -/
+def exGraph : Graph :=
+  [some [⟨1, 0, 0, 1⟩, ⟨4, 3, 0, 4⟩], some [⟨0, 0, 0, 1⟩, ⟨2, 1, 1, 2⟩, ⟨3, 2, 1, 3⟩],
+   some [⟨1, 1, 1, 2⟩], some [⟨1, 2, 1, 3⟩], some [⟨0, 3, 0, 4⟩]]
+
+def exGraphTree : T := T.node ⟨"", []⟩ 0 [inn [lf "a", lf "b"], lf "c"]
+
+example : graphProblems exGraph = [] ∧ graphIsTree exGraph exGraphTree = true := by decide
+
+/-- branch 1 turned towards the root (what a missing `ReorderEdges` leaves) -/
+example : graphProblems (exGraph.set 2 (some [⟨1, 1, 2, 1⟩]) |>.set 1 (some [⟨0, 0, 0, 1⟩, ⟨2, 1, 2, 1⟩, ⟨3, 2, 1, 3⟩])) =
+    ["a branch does not point away from the root"] := by decide
+
+/-- node 2 forgot its neighbour (one `delNeighbor` too many): asymmetric adjacency -/
+example : "adjacency is not symmetric (no back-pointer with the same branch)" ∈
+    graphProblems (exGraph.set 2 (some [])) := by decide
+
+/-! ### the Newick text describes the tree -/
+
+/-- ★ `write_describes`: for every tree whose names, comments and numbers can be told apart in a
+    Newick text (`textWF`: no metacharacter in a name, no `]` in a comment, branch comments only
+    after a length, numbers printed without metacharacter or `/` and denoting their value), the
+    text that the writer model of C01 (transliteration of `Node.Newick` / `Tree.Newick`; the driver
+    ties it byte for byte to the implementation's text on every step) writes, re-read by the
+    reference reader of the oracle, is that tree: same shape and child order, names or supports,
+    comments, lengths.  Any codec `C` (number printing) that satisfies `textWF` is allowed. -/
+theorem write_describes (C : Gotree.Newick.Codec) (t : T) (h : textWF C t = true) :
+    textProblems t (Gotree.Newick.writeStr C t) = [] :=
+  textProblems_write C t h
 
 /-! ### histories: the invariant is closed under every composed operation model -/
 
@@ -427,6 +466,40 @@ theorem op_ok (ns : Bool) (op : EditOp) (t t' : T) (h : Inv ns t) (hp : opPre ns
       simp only [Gotree.C05.Res.ok.injEq] at ho
       subst ho
       exact ⟨hasDupS_false_nodup _ (by simpa using hd), fun hpr => by rw [setNames_noSingle]; exact hns hpr⟩
+  | renameAuto internals tips length =>
+    simp only [applyOp, renameAuto] at ho
+    split at ho
+    · cases ho
+    · simp only [relabel] at ho
+      split at ho
+      · cases ho
+      · rename_i hd
+        simp only [Gotree.C05.Res.ok.injEq] at ho
+        subst ho
+        exact ⟨hasDupS_false_nodup _ (by simpa using hd), fun hpr => by rw [setNames_noSingle]; exact hns hpr⟩
+  | shuffle draws =>
+    simp only [applyOp, shuffle] at ho
+    split at ho
+    · cases ho
+    · split at ho
+      · cases ho
+      · simp only [relabel] at ho
+        split at ho
+        · cases ho
+        · rename_i hd
+          simp only [Gotree.C05.Res.ok.injEq] at ho
+          subst ho
+          exact ⟨hasDupS_false_nodup _ (by simpa using hd), fun hpr => by rw [setNames_noSingle]; exact hns hpr⟩
+  | quotes add internals tips =>
+    simp only [applyOp, quotes] at ho
+    split at ho
+    · cases ho
+    · split at ho
+      · cases ho
+      · rename_i hd
+        simp only [Gotree.C05.Res.ok.injEq] at ho
+        subst ho
+        exact ⟨hasDupS_false_nodup _ (by simpa using hd), fun hpr => by rw [mapSel_noSingle]; exact hns hpr⟩
   | reinit =>
     simp only [applyOp, reinit] at ho
     split at ho
@@ -451,8 +524,13 @@ theorem reroot_step_oriented (t t' : T) (p : List Nat) (h : applyOp (.reroot p) 
   exact ⟨h1, h3, h4⟩
 
 /-- ★ every finite history of successful edits, from any tree with unique tip names (single-child
-    nodes allowed unless `ns₀` promises their absence), ends in a tree that satisfies the invariant
-    and whose enumerations agree (branches = nodes − 1).  `preAll` is the property's quantifier
+    nodes allowed unless `ns₀` promises their absence), ends in a tree that satisfies the invariant.
+    WHAT THIS IS: the side conditions of the property's quantifier (unique tip names; no single-child
+    inner node, which pruning needs) are re-established by every composed operation model, so the
+    per-tree theorems of this file apply at every step.  It states none of the heap clauses
+    (connected, acyclic, symmetric, oriented): those cannot fail for a value of `T` and are judged on
+    the real heap by the oracle.  The second conjunct (`edges_nodes`) holds of every tree,
+    independently of the history; it is kept because DESIGN Appendix B fixed this statement.  `preAll` is the property's quantifier
     (pruning only on trees free of single-child inner nodes, keeping at least three tips). -/
 theorem history_inv (t₀ : T) (ops : List EditOp) (ns₀ : Bool) (h₀ : Inv ns₀ t₀)
     (hp : preAll ns₀ t₀ ops = true) :
@@ -496,6 +574,19 @@ def exOps : List EditOp :=
 /-- a second rooted tree with other tip names, for `Merge` -/
 def exSecond : T :=
   T.node ⟨"", []⟩ 0 [(eL 1 0, T.leaf "x"), (eL 1 1, T.node ⟨"", []⟩ 0 [(eL 1 2, T.leaf "y"), (eL 1 3, T.leaf "z")])]
+
+/-- the hypotheses of `write_describes` hold of the example tree with Go's number printing -/
+example : textWF Gotree.Newick.goCodec exHist = true := by decide +kernel
+
+/-- every precondition (`opPre`) is satisfiable, with the promise on, and the operation succeeds -/
+example :
+    (∀ op ∈ ([.outgroup false true ["g", "h"], .outgroup true false ["d", "e"], .midpoint,
+              .graftTree "a" exSecond, .graftEdge "new" 3, .insertIdentical [["b", "b2", "b3"]],
+              .collapseDepth 1 2 false false, .collapseSup (1/2) false, .subTree [1], .rename [("a", "A")],
+              .shuffle [0, 1, 0, 3, 2, 1, 0, 4], .quotes true false true, .renameAuto true true 4, .relabel ["r"],
+              .reinit, .clone, .removeSingle] : List EditOp),
+      opPre true op exHist = true ∧ (match applyOp op exHist with | .ok t => InvB (promised true op exHist) t | _ => false) = true) := by
+  decide +kernel
 
 example : preAll true exHist [.merge exSecond, .unroot] = true ∧
     (match runOps exHist [.merge exSecond, .unroot] with | .ok t => InvB true t && t.tipNames.length == 11 | _ => false) = true := by
